@@ -213,3 +213,37 @@ class _LogIter:
         if p._raises:
             raise IterBoom("iterable failed")
         raise StopIteration
+
+
+class BudgetExceeded(BaseException):
+    """The call under observation used more CPU time than any legitimate execution needs (it does not terminate)."""
+
+
+class cpu_budget:
+    """Context manager: raise BudgetExceeded when the process has used `seconds` of CPU time inside the block (ITIMER_PROF, so a
+    busy machine does not matter), with a generous wall-clock backstop for calls that block without using the CPU."""
+
+    def __init__(self, seconds=120, wall=1800):
+        self.seconds, self.wall = seconds, wall
+
+    def _fire(self, signum, frame):
+        raise BudgetExceeded()
+
+    def __enter__(self):
+        import signal
+        import threading
+        self._on = threading.current_thread() is threading.main_thread()
+        if self._on:
+            self._old = (signal.signal(signal.SIGPROF, self._fire), signal.signal(signal.SIGALRM, self._fire))
+            signal.setitimer(signal.ITIMER_PROF, self.seconds)
+            signal.alarm(self.wall)
+        return self
+
+    def __exit__(self, *exc):
+        import signal
+        if self._on:
+            signal.setitimer(signal.ITIMER_PROF, 0)
+            signal.alarm(0)
+            signal.signal(signal.SIGPROF, self._old[0])
+            signal.signal(signal.SIGALRM, self._old[1])
+        return False
